@@ -771,6 +771,22 @@ func (e *Env) call(x *ECall) (Val, types.Type) {
 			return Val{T: fmt.Sprintf("(= %s 2)", m)}, tBool
 		}
 		return Val{T: fmt.Sprintf("(>= %s 1)", m)}, tBool
+	case "fnname", "fnrecv":
+		// fnname(x): the name of the function a function-typed value denotes, when the engine knows it statically at this point
+		// (a function, a closure, a bound method value `s.handler`: "(*pkg.T).handler"); an arbitrary string otherwise.
+		// fnrecv(x): the receiver a bound method value was made from (nil reference otherwise).
+		v, _ := arg(0)
+		if x.Fun == "fnname" {
+			if v.Fn != nil {
+				n := strings.TrimSuffix(v.Fn.String(), "$bound")
+				return Val{T: t.S.strLit(n)}, types.Typ[types.String]
+			}
+			return Val{T: t.freshVal("fnname", types.Typ[types.String])}, types.Typ[types.String]
+		}
+		if v.Fn != nil && strings.HasSuffix(v.Fn.String(), "$bound") && len(v.Bnd) == 1 && len(v.Fn.FreeVars) == 1 {
+			return Val{T: t.term(v.Bnd[0])}, v.Fn.FreeVars[0].Type()
+		}
+		return e.fail("fnrecv(): the value is not a bound method value known at this point")
 	case "final":
 		// final(x): the value of the function's local variable x at this return (ensures only; parameters by their plain name mean ENTRY values)
 		id, ok := x.Args[0].(*EIdent)
